@@ -1,1 +1,208 @@
-"""Rules for C13 (see DESIGN.md section 5)."""
+"""C13 -- terminator, padding bits, pad codewords, M1/M3 tail, remainder bits, call order."""
+import ast
+
+from .. import ev, iso, nf, pat, src
+from ..core import rule, ob, explain
+from ..interp import Interp, make_callable, Raised
+from ..src import Unknown
+from .common import C, levels, micro_versions, table_ob, need, single
+
+explain('C13', '''Decided completely for the four helpers, which are pure integer arithmetic on (version,
+capacity, length) and never see user data: the terminator count equals min(capacity-length, T) with T the ISO
+table; the number of zero bits added to reach the codeword boundary is evaluated for every residue; the pad
+codeword literals, their alternation and count; the M1/M3 filling (zero bits to the boundary, alternating pad
+codewords, final 4-bit codeword 0000) for every length 0..capacity of the three M1/M3 capacities; the order and
+arguments of the three calls in _encode. The helpers are evaluated by the abstract interpreter on a recording
+buffer over their complete (capacity, length) domain - a finite truth table of data-independent code.
+NOT decided: nothing content-dependent is involved; that the segments themselves are right is C01.''')
+
+
+class Buf:
+    """Recording stand-in for encoder.Buffer (only what the pad helpers use)."""
+    _model = ('extend',)
+
+    def __init__(self, n=0):
+        self.bits = [7] * n     # 7 = 'some earlier bit', never inspected
+
+    def extend(self, it):
+        self.bits.extend(list(it))
+
+    def __len__(self):
+        return len(self.bits)
+
+
+def _run(fx, name, *args):
+    it = Interp()
+    f = make_callable(fx.forest, 'encoder', name, it)
+    return f(*args)
+
+
+def _capacities(fx):
+    """{iso version: sorted set of capacities of that version}"""
+    cap = C(fx, 'SYMBOL_CAPACITY')
+    mv = micro_versions(fx)
+    out = {}
+    for v in iso.ALL_VERSIONS:
+        row = cap.get(mv[v] if v < 1 else v)
+        need(row, f'SYMBOL_CAPACITY has no row for version {v}')
+        out[v] = sorted(set(row.values()))
+    return out
+
+
+@rule('C13', 'R1', 49, 'terminator = min(capacity - length, T[version]) zero bits; T = 4 / 3,5,7,9')
+def r1(fx):
+    mv = micro_versions(fx)
+    t = C(fx, 'TERMINATOR_LENGTH')
+    for k, want in iso.TERMINATOR.items():
+        yield table_ob(fx, 'TERMINATOR_LENGTH', k, t.get(None if k is None else mv[k]), want)
+    fn = fx.fn('encoder', 'write_terminator')
+    caps = _capacities(fx)
+    for v in iso.ALL_VERSIONS:
+        ver = None if v >= 1 else mv[v]
+        bad = None
+        n = 0
+        for cap in caps[v]:
+            for dist in range(0, 14):
+                if cap - dist < 0:
+                    continue
+                b = Buf(cap - dist)
+                _run(fx, 'write_terminator', b, cap, ver, len(b))
+                got = b.bits[cap - dist:]
+                n += 1
+                want = [0] * min(dist, iso.TERMINATOR[None if v >= 1 else v])
+                if got != want and bad is None:
+                    bad = (cap, cap - dist, got, want)
+        yield ob(f'terminator v{v} ({n} (capacity, length) pairs)', bad is None, fn,
+                 got=f'capacity={bad[0]} length={bad[1]}: {bad[2]}' if bad else 'min(capacity-length, T) zeros',
+                 want=f'{bad[3]}' if bad else 'min(capacity-length, T) zeros')
+
+
+@rule('C13', 'R2', 8, 'padding bits: zeros up to the next codeword boundary, none if already aligned (not M1/M3)')
+def r2(fx):
+    fn = fx.fn('encoder', 'write_padding_bits')
+    mv = micro_versions(fx)
+    for res in range(8):
+        bad = None
+        for v in (1, 7, 40, -2, 0):
+            for base in (0, 8, 64):
+                ln = base + res
+                b = Buf(ln)
+                _run(fx, 'write_padding_bits', b, mv[v] if v < 1 else v, len(b))
+                got = b.bits[ln:]
+                want = [0] * (-ln % 8)
+                if got != want and bad is None:
+                    bad = (v, ln, got, want)
+        yield ob(f'pad bits, length = {res} mod 8', bad is None, fn,
+                 got=f'v{bad[0]} length={bad[1]}: {len(bad[2])} bit(s) {bad[2]}' if bad else f'{-res % 8} zero bit(s)',
+                 want=f'{len(bad[3])} zero bit(s)' if bad else f'{-res % 8} zero bit(s)')
+
+
+PADS = ([1, 1, 1, 0, 1, 1, 0, 0], [0, 0, 0, 1, 0, 0, 0, 1])
+
+
+@rule('C13', 'R3', 41, 'pad codewords 11101100 / 00010001 alternately from the first, up to the data capacity')
+def r3(fx):
+    fn = fx.fn('encoder', 'write_pad_codewords')
+    mv = micro_versions(fx)
+    caps = _capacities(fx)
+    # literal occurs in the function
+    lits = [n for n in src.walk_local(fn) if isinstance(n, ast.Tuple) and all(isinstance(e, ast.Tuple) for e in n.elts)
+            and len(n.elts) == 2]
+    lit = single(lits, 'pad codeword literal (tuple of two tuples)')
+    val = ev.ev(lit, {})
+    yield ob('pad codeword literals', [list(x) for x in val] == [PADS[0], PADS[1]], lit, got=val, want=PADS)
+    for v in iso.ALL_VERSIONS:
+        if v in (-3, -1):
+            continue
+        bad = None
+        n = 0
+        for cap in caps[v]:
+            for k in range(0, min(cap // 8, 6) + 1):
+                ln = cap - 8 * k       # aligned stream, k codewords short of the capacity
+                b = Buf(ln)
+                _run(fx, 'write_pad_codewords', b, mv[v] if v < 1 else v, cap, len(b))
+                got = b.bits[ln:]
+                want = []
+                for i in range(k):
+                    want += PADS[i % 2]
+                n += 1
+                if got != want and bad is None:
+                    bad = (cap, ln, got, want)
+        yield ob(f'pad codewords v{v} ({n} cases)', bad is None, fn,
+                 got=f'capacity={bad[0]} length={bad[1]}: {bad[2]}' if bad else 'alternating pad codewords up to capacity',
+                 want=f'{bad[3]}' if bad else 'alternating pad codewords up to capacity')
+
+
+def _m13_reference(cap, ln):
+    bits = []
+    cur = ln
+    while cur % 8 and cur < cap:
+        bits.append(0)
+        cur += 1
+    i = 0
+    while cap - cur >= 8:
+        bits += PADS[i % 2]
+        i += 1
+        cur += 8
+    bits += [0] * (cap - cur)
+    return bits
+
+
+@rule('C13', 'R4', 3, 'M1/M3: zero bits to the boundary, alternating pad codewords, final 4-bit codeword 0000')
+def r4(fx):
+    fn = fx.fn('encoder', 'write_pad_codewords')
+    mv = micro_versions(fx)
+    caps = _capacities(fx)
+    for v in (-3, -1):
+        for cap in caps[v]:
+            bad = None
+            for ln in range(0, cap + 1):
+                b = Buf(ln)
+                # the two helpers are applied in this order by _encode (R6); the first is a no-op for M1/M3
+                _run(fx, 'write_padding_bits', b, mv[v], len(b))
+                _run(fx, 'write_pad_codewords', b, mv[v], cap, len(b))
+                got = b.bits[ln:]
+                want = _m13_reference(cap, ln)
+                if got != want and bad is None:
+                    bad = (ln, got, want)
+            yield ob(f'M1/M3 fill v{v} capacity {cap} (lengths 0..{cap})', bad is None, fn,
+                     got=f'length={bad[0]}: {"".join(map(str, bad[1]))}' if bad else 'ISO 7.4.10 fill',
+                     want=f'{"".join(map(str, bad[2]))}' if bad else 'ISO 7.4.10 fill')
+
+
+@rule('C13', 'R6', 5, '_encode: terminator, padding bits, pad codewords in this order, fresh len(buff), capacity of the final level')
+def r6(fx):
+    fn = fx.fn('encoder', '_encode')
+    calls = {}
+    order = []
+    for st in fn.body:
+        if isinstance(st, ast.Expr) and isinstance(st.value, ast.Call):
+            nm = src.call_name(st.value)
+            if nm in ('write_terminator', 'write_padding_bits', 'write_pad_codewords'):
+                calls[nm] = st.value
+                order.append(nm)
+    yield ob('call order', order == ['write_terminator', 'write_padding_bits', 'write_pad_codewords'], fn, got=order,
+             want=['write_terminator', 'write_padding_bits', 'write_pad_codewords'])
+    need(len(order) == 3 and len(set(order)) == 3, 'the three pad helpers are not called exactly once at top level of _encode')
+    b1 = pat.need(calls['write_terminator'], 'write_terminator(buff, H_cap, H_ver, H_len)', 'write_terminator call')
+    b2 = pat.need(calls['write_padding_bits'], 'write_padding_bits(buff, H_version, H_len)', 'write_padding_bits call')
+    b3 = pat.need(calls['write_pad_codewords'], 'write_pad_codewords(buff, H_version, H_cap, H_len)', 'write_pad_codewords call')
+    yield ob('each helper gets the current length', all(pat.slot(b['len'], ['len(buff)'], 'length argument') for b in (b1, b2, b3)),
+             fn, got=[ast.unparse(b['len']) for b in (b1, b2, b3)], want='len(buff)')
+    yield ob('version arguments', pat.slot(b1['ver'], ['ver'], 'ver') and pat.slot(b2['version'], ['version'], 'version')
+             and pat.slot(b3['version'], ['version'], 'version'), fn,
+             got=[ast.unparse(b1['ver']), ast.unparse(b2['version']), ast.unparse(b3['version'])], want="['ver', 'version', 'version']")
+    # capacity: SYMBOL_CAPACITY[version][error] read after the boost
+    cap_assign = [s for s in fn.body if isinstance(s, ast.Assign) and ast.unparse(s.targets[0]) == 'capacity']
+    ca = single(cap_assign, 'assignment of capacity in _encode')
+    pat.need(ca.value, 'consts.SYMBOL_CAPACITY[H_v][H_e]', 'capacity lookup')
+    bb = pat.match(ca.value, 'consts.SYMBOL_CAPACITY[H_v][H_e]')
+    okc = pat.slot(bb['v'], ['version'], 'capacity version') and pat.slot(bb['e'], ['error'], 'capacity level') \
+        and pat.slot(b1['cap'], ['capacity'], 'cap') and pat.slot(b3['cap'], ['capacity'], 'cap')
+    yield ob('capacity = SYMBOL_CAPACITY[version][error] passed to both', okc, ca, got=ast.unparse(ca.value),
+             want='consts.SYMBOL_CAPACITY[version][error]')
+    boost = [s for s in fn.body if isinstance(s, ast.If) and ast.unparse(s.test) == 'boost_error']
+    b = single(boost, '`if boost_error:` in _encode')
+    idx = fn.body.index
+    yield ob('capacity is read after the level was boosted', idx(b) < idx(ca) < idx(next(s for s in fn.body if isinstance(s, ast.Expr) and isinstance(s.value, ast.Call) and src.call_name(s.value) == 'write_terminator')),
+             ca, got=f'boost at line {b.lineno}, capacity at line {ca.lineno}', want='boost < capacity < terminator')
